@@ -102,8 +102,26 @@ def gen_case(rng, big=False):
                 script[k] = [[rng.randrange(3), ["rc", rng.choice(FATAL)]]]
         elif rng.random() < 0.5:
             script[k] = [[rng.randrange(3), "ok"]]
-    return {"window": window, "n_tries": n_tries, "timeout": timeout, "mask": mask, "bursts": bursts,
+    case = {"window": window, "n_tries": n_tries, "timeout": timeout, "mask": mask, "bursts": bursts,
             "script": {str(k): v for k, v in script.items()}, "jitter": rng.randrange(1 << 30)}
+    if rng.random() < 0.2:
+        # "harmonic" bursts: per-command timeouts that are multiples of one another and (almost) everything
+        # lost, so that the deadlines of commands with DIFFERENT numbers of transmissions fall into the same
+        # scan of the burst loop
+        case["window"] = rng.choice([2, 3, 4, 8])
+        if case["mask"] + 1 <= case["window"]:
+            case["mask"] = 0xffff          # the (shrunk) sequence space must exceed the window
+        case["n_tries"] = rng.choice([2, 2, 3])
+        for b in case["bursts"]:
+            b["extra"] = [rng.choice([0, 0, timeout, 2 * timeout, 3 * timeout]) for _ in b["extra"]]
+        p_lost = rng.choice([0.7, 0.9, 1.0])
+        case["script"] = {str(k): ([] if rng.random() < p_lost else [[rng.randrange(3), "ok"]]) for k in range(total)}
+        if rng.random() < 0.5:
+            case["jitter"] = 0
+    # payloads: commands carry 0..256 bytes of data (errors raised by the burst describe the failing packet)
+    for b in case["bursts"]:
+        b["data"] = [rng.choice([0, 0, 4, 31, 32, 33, 64, 256]) for _ in b["extra"]]
+    return case
 
 
 def wrap_case():
@@ -182,18 +200,22 @@ def run_impl(case):
                     did = struct.unpack_from("<I", packet, 14)[0]
                     net.log.append(("cb", i, did))
                 return cb
-            calls = [sc.scpcall(1, 2, 3, 7, i, 0, 0, b"", mk_cb(i), float(e)) for i, e in enumerate(b["extra"])]
+            sizes = b.get("data") or [0] * len(b["extra"])
+            calls = [sc.scpcall(1, 2, 3, 7, i, 0, 0, bytes(range(256))[:sizes[i]], mk_cb(i), float(e))
+                     for i, e in enumerate(b["extra"])]
             # far beyond the proved iteration bound 2*(commands*n_tries + datagrams + 1) (each iteration logs a
             # bounded number of events): a burst still running then is stopped and reported as not terminating
             net.limit_events = len(net.log) + 60 * (len(calls) * case["n_tries"] + len(net.queue) + 20)
             try:
-                conn.send_scp_burst(256, case["window"], iter(calls))
+                from harness import common as _common
+                with _common.cpu_limit(300 if len(calls) > 5000 else 30):
+                    conn.send_scp_burst(256, case["window"], iter(calls))
                 result = ["done"]
             except sc.TimeoutError as e:
                 result = ["timeout", e.packet.arg1]
             except sc.FatalReturnCodeError as e:
                 result = ["fatal", int(e.return_code), None if e.packet is None else e.packet.arg1]
-            except simnet.Runaway as e:
+            except (simnet.Runaway, _common.ImplHang) as e:
                 result = ["error", "DidNotTerminate", str(e)]
             except Exception as e:     # noqa: the property allows only the two documented errors
                 result = ["error", type(e).__name__, repr(e)[:120]]
